@@ -38,6 +38,8 @@ def referenced(p):
 
 def behaviour(p, rng, steps):
     for _ in range(steps):
+        if p.dead:
+            return
         B, C, S = p.ids('builder'), p.ids('cell'), p.ids('slice')
         n = len(p.objs)
         if n >= 12:
@@ -106,6 +108,8 @@ def behaviour(p, rng, steps):
             p.cell_from_bits([rng.getrandbits(1) for _ in range(nb)], refs, plain=rng.random() < 0.8)
         # after an error drop the (now unspecified) target
         r = p.records[-1]
+        if p.dead:
+            return
         if r['op'] == 'call' and 'err' in r['out'] and 'obj' in r['call'] and p.objs[r['call']['obj']][0] != 'cell':
             i = r['call']['obj']
             if i not in referenced(p):
